@@ -164,6 +164,13 @@ impl PagePool {
     ///
     /// The contents of the page are undefined.
     pub fn alloc(&self) -> Page {
+        let page = self.alloc_inner();
+        #[cfg(feature = "verif")]
+        crate::verif::knobs::poison_page(page.as_mut_ptr());
+        page
+    }
+
+    fn alloc_inner(&self) -> Page {
         // fast path: try to serve request from the thread-local freelist.
         let mut tls_freelist = self.tls_freelist();
         if let Some(page) = tls_freelist.pop() {
